@@ -5,6 +5,7 @@ import (
 	"go/constant"
 	"go/token"
 	"go/types"
+	"os"
 	"strings"
 
 	"golang.org/x/tools/go/ssa"
@@ -357,4 +358,136 @@ func ruleC20_4(c *Ctx) {
 		in2.Run(fn, nil, nil)
 		R.Check(okStore && len(stores) >= 1, key+"#store", pos, "args[i] = float32(the parsed value), i the operand counter", strings.Join(stores, " | "))
 	}
+}
+
+func init() { register("C20", ruleC20_5) }
+
+// ruleC20_5: the converter's scanner hands the text to the standard library. Operand i is read by
+// fmt.Fscanf(r, "%f", &args[i]) from the reader at the cursor, after skipping spaces and nothing else (a byte that is
+// not a space is put back). What a number's text means is then fmt's business, not this code's: there is no token
+// buffer of its own that could be too short, no digit handling of its own that could be wrong.
+func ruleC20_5(c *Ctx) {
+	R := c.R
+	R.Rule("C20.5", "the converter's number scanner delegates: for operand i = 0..n-1 (a counted loop) it skips spaces - reading a byte, going on exactly while it is a space, putting back the first byte that is not - and then calls fmt.Fscanf on that same reader with the format %f and the address of operand slot i; it converts no text itself", 4)
+	fn := c.Fn("mdicons", "scan")
+	if fn == nil {
+		return
+	}
+	pos := c.FPos(fn)
+	key := "mdicons.scan"
+	in := c.Interp()
+	// what is put into argument lists built in place (the operand's address handed to Fscanf)
+	var boxed []*sym.Term
+	in.OnStore = func(f *sym.Frame, site ssa.Instruction, ptr, val *sym.Term) {
+		if ptr != nil && ptr.Obj != nil && ptr.Obj.Kind == "alloc" && val != nil && val.Op == "makeiface" {
+			boxed = append(boxed, val.Args[0])
+		}
+	}
+	_, _, fr := in.Run(fn, nil, nil)
+	var scanf []*sym.Event
+	var reads, unreads, others []*sym.Event
+	for _, ev := range in.Events {
+		if ev.Kind != "extcall" && ev.Kind != "invoke" {
+			continue
+		}
+		switch {
+		case ev.Callee == "fmt.Fscanf":
+			scanf = append(scanf, ev)
+		case strings.HasSuffix(ev.Callee, "ReadByte"):
+			reads = append(reads, ev)
+		case strings.HasSuffix(ev.Callee, "UnreadByte"):
+			unreads = append(unreads, ev)
+		default:
+			others = append(others, ev)
+		}
+	}
+	if os.Getenv("IVGSA_DEBUG_SCAN") != "" {
+		for _, ev := range in.Events {
+			fmt.Fprintf(os.Stderr, "EV %s %s args=%s guard=%.200s loops=%d\n", ev.Kind, ev.Callee, argKeys(ev.Args), shortKey(ev.Guard), len(ev.Loops))
+		}
+	}
+	_ = fr
+	if !R.Check(len(scanf) == 1 && len(others) == 0, key+"#delegates", pos, "one call of fmt.Fscanf per operand and no other text conversion", fmt.Sprintf("%d fmt.Fscanf calls, %d other library calls (%s)", len(scanf), len(others), calleeNames(others))) {
+		return
+	}
+	sc := scanf[0]
+	// reader, format, destination
+	okR := len(sc.Args) >= 2 && strings.Contains(sc.Args[0].Key(), "param:r")
+	format, _ := sc.Args[1].StringVal()
+	okF := format == "%f"
+	okD := false
+	var idx *sym.Term
+	// the store is seen once per evaluation pass: the last one is the fixpoint's
+	if len(boxed) > 0 {
+		d := boxed[len(boxed)-1]
+		if d.Op == "ptr" && d.Obj != nil && strings.Contains(d.Obj.ID, "param:args") && len(d.Path) == 1 {
+			idx = d.Path[0].Sym
+			if idx == nil {
+				idx = sym.Int(d.Path[0].Index)
+			}
+			okD = true
+		}
+	}
+	vdetail := fmt.Sprintf(" reader=%v format=%v slot=%v boxed=%s", okR, okF, okD, argKeys(boxed))
+	R.Check(okR && okF && okD, key+"#fscanf", c.Pos(sc.Site), "fmt.Fscanf(r, \"%f\", &args[i])", argKeys(sc.Args)+" varargs:"+vdetail)
+	// operand loop
+	okLoop := len(sc.Loops) == 1
+	if okLoop {
+		li, ok := sc.Loops[0].Frame.Loop(sc.Loops[0].Header)
+		okLoop = ok && li.Step == 1 && li.Op == token.LSS && strings.Contains(li.Bound.Key(), "$param:n")
+		if ok {
+			i0, isC := li.Init.Int64()
+			okLoop = okLoop && isC && i0+li.Offset == 0 && idx != nil && sym.Eq(stripConv(idx), stripConv(li.IndexVal))
+		}
+	}
+	R.Check(okLoop, key+"#operands", pos, "for i := 0; i < n; i++ with slot i", "")
+	// the space loop: one ReadByte per round on r; UnreadByte exactly when the byte is not a space, and then the loop is left
+	okSp := len(reads) == 1 && len(unreads) == 1 && len(reads[0].Loops) == 2 && strings.Contains(reads[0].Args[0].Key(), "param:r") && strings.Contains(unreads[0].Args[0].Key(), "param:r")
+	detail := fmt.Sprintf("%d ReadByte, %d UnreadByte", len(reads), len(unreads))
+	if okSp {
+		// the byte read
+		var b *sym.Term
+		for _, l := range guardLits(unreads[0].Guard) {
+			x := l
+			if x.Op == "not" {
+				x = x.Args[0]
+			}
+			if x.Op == "bin" && x.Name == "==" && (x.Args[1].Key() == "32" || x.Args[0].Key() == "32") {
+				b = x
+				okSp = l.Op == "not" // put back when it is NOT a space
+			}
+		}
+		if b == nil {
+			okSp, detail = false, "UnreadByte does not depend on the byte being a space: "+shortKey(unreads[0].Guard)
+		} else {
+			// the loop goes round again exactly when the byte is a space
+			h := reads[0].Loops[1].Header
+			hdr := fn.Blocks[h]
+			var g *sym.Term
+			for _, p := range hdr.Preds {
+				if hdr.Dominates(p) && fr.Executable(p.Index, h) {
+					if eg := fr.EdgeGuard(p.Index, h); eg != nil {
+						if g == nil {
+							g = eg
+						} else {
+							g = sym.Or(g, eg)
+						}
+					}
+				}
+			}
+			hr := fr.Reach(h)
+			if g == nil || hr == nil || !sym.CondsContradict([]*sym.Term{hr, g, sym.Not(b)}) || !sym.CondsContradict([]*sym.Term{hr, sym.Not(g), b}) {
+				okSp, detail = false, "the skipping loop does not continue exactly on a space: continues under "+shortKey(g)+" reached under "+shortKey(hr)
+			}
+		}
+	}
+	R.Check(okSp, key+"#spaces", pos, "skip spaces only, put the first other byte back", detail)
+}
+
+func calleeNames(evs []*sym.Event) string {
+	var s []string
+	for _, e := range evs {
+		s = append(s, e.Callee)
+	}
+	return strings.Join(s, ",")
 }
